@@ -28,10 +28,12 @@ Prefix(mb) ==
   \o <<AU64("N", U64Of(mb.n)), AU64("T", U64Of(mb.t)), AU64("M", U64Of(mb.m))>>
   \o [j \in 1..mb.m |-> ATok("Ci", mb.tok.C[j])]
   \o [j \in 1..mb.m |-> AU64("vi - minimum_value", mb.prom64[j])]
-Script(mb) ==
+\* the prover stops after the last challenge; the verifier goes on to absorb the responses (batch weights)
+ProverScript(mb) ==
      Prefix(mb) \o <<ATok("A", mb.tok.A), Chal("y"), Chal("z")>> \o Rounds(mb, 1)
   \o <<ATok("A1", mb.tok.A1), ATok("B", mb.tok.B), Chal("e")>>
-  \o <<ATok("r1", mb.tok.r1), ATok("s1", mb.tok.s1)>> \o [kk \in 1..mb.t |-> ATok("d1", mb.tok.d1[kk])]
+Script(mb) ==
+  ProverScript(mb) \o <<ATok("r1", mb.tok.r1), ATok("s1", mb.tok.s1)>> \o [kk \in 1..mb.t |-> ATok("d1", mb.tok.d1[kk])]
 
 Match(o, x) == /\ o.op = x.op /\ o.label = x.label
                /\ CASE x.kind = "ctx" -> TRUE
